@@ -154,6 +154,16 @@ def run(tier, out):
                     break
             if h.events[-1]["ev"] == "Raised":
                 continue
+            # one more edit in every history: a step duration moved across an hour boundary (what comes later in the journey
+            # is then placed another hour: every value that depends on it must have been recomputed by the edit itself)
+            steps = [s for s in efx.names_of(h.model, "UsageJourneyStep") if s in efx.reachable(h.model)]
+            if steps:
+                s = rng.choice(sorted(steps))
+                cur_min = h.model[s]["inp"]["user_time_spent"][0] * {"s": 1 / 60, "min": 1, "hour": 60}.get(
+                    h.model[s]["inp"]["user_time_spent"][1], 1)
+                ev = h.do(("input", s, "user_time_spent", [70 if cur_min < 60 else 20, "min"]), compare_with_rebuild=False)
+                if ev["ev"] == "Raised":
+                    continue
             # plotting values that have a simulated twin, while the graph is still the one the edits left
             names = sorted(efx.reachable(h.model))
             i0, c0 = input_state(ns, h.live), calc_state(ns, h.live, names)
